@@ -57,7 +57,13 @@ _FLOATS = (float, float64, float32, _np.float64, _np.float32, _np.dtype("float64
 _cnt = [0]
 
 
+def _ndt(dt):
+    """Map injected stand-ins (bool, ...) back to the native dtype."""
+    return getattr(dt, "_vc_native", dt)
+
+
 def _isfloat_dt(dt):
+    dt = _ndt(dt)
     try:
         return dt in _FLOATS
     except TypeError:
@@ -202,11 +208,21 @@ class VArr(_np.ndarray):
 
     def fill(self, v):
         CTX.tick()
-        if guard_now().c is None:
-            raise Unsupported("fill inside a guard context")
+        g = guard_now()
+        if g.c is None:
+            if self.dtype != object:
+                raise Unsupported("fill of a native array inside a guard context")
+            nv = _lift(v)
+            flat = _np.asarray(self).reshape(-1) if self.flags.c_contiguous else None
+            if flat is None:
+                raise Unsupported("fill of a non-contiguous array inside a guard context")
+            for i in range(flat.size):
+                flat[i] = ite(g, nv, flat[i])
+            return
         _np.ndarray.fill(self, _lift(v) if self.dtype == object else v)
 
     def astype(self, dt, *a, **k):
+        dt = _ndt(dt)
         if _isfloat_dt(dt):
             return _W(_obj(self).copy())
         if dt in (bool, _np.bool_) and self.dtype == object:
@@ -276,10 +292,19 @@ class VArr(_np.ndarray):
         outs = kw.get("out")
         if outs is not None:
             CTX.tick()
-            if guard_now().c is None:
-                raise Unsupported("in-place array operation inside a guard context")
             if _b.any(_is_obj(o) for o in outs):
                 sym = True
+            g = guard_now()
+            if g.c is None:
+                if not sym or len(outs) != 1 or method != "__call__":
+                    raise Unsupported("in-place array operation inside a guard context")
+                kw2 = {k: v for k, v in kw.items() if k != "out"}
+                r = self.__array_ufunc__(ufunc, method, *inputs, **kw2)
+                dst = _np.asarray(outs[0])
+                rr = _np.broadcast_to(_obj(r), dst.shape)
+                for idx in _np.ndindex(*dst.shape):
+                    dst[idx] = ite(g, rr[idx], dst[idx])
+                return _W(outs[0])
             kw["out"] = tuple(_np.asarray(o) if isinstance(o, VArr) else o for o in outs)
         if sym:
             if ufunc is _np.sqrt or ufunc is _np.exp or ufunc is _np.log:
@@ -475,6 +500,7 @@ class GA:
 # -- constructors --------------------------------------------------------------------------
 
 def zeros(shape, dtype=float, **kw):
+    dtype = _ndt(dtype)
     if _isfloat_dt(dtype):
         a = _np.empty(shape, dtype=object).view(VArr)
         _np.ndarray.fill(a, SV(c=Fraction(0)))
@@ -483,6 +509,7 @@ def zeros(shape, dtype=float, **kw):
 
 
 def ones(shape, dtype=float, **kw):
+    dtype = _ndt(dtype)
     if _isfloat_dt(dtype):
         a = _np.empty(shape, dtype=object).view(VArr)
         _np.ndarray.fill(a, SV(c=Fraction(1)))
@@ -491,6 +518,7 @@ def ones(shape, dtype=float, **kw):
 
 
 def full(shape, fill_value, dtype=None, **kw):
+    dtype = _ndt(dtype)
     if dtype is None or _isfloat_dt(dtype) or isinstance(fill_value, (SV, SB)):
         if dtype is None and isinstance(fill_value, (int, _np.integer)) and not isinstance(fill_value, bool):
             return _np.full(shape, fill_value, **kw).view(VArr)
@@ -501,6 +529,7 @@ def full(shape, fill_value, dtype=None, **kw):
 
 
 def empty(shape, dtype=float, **kw):
+    dtype = _ndt(dtype)
     return zeros(shape, dtype, **kw)
 
 
@@ -527,6 +556,7 @@ def _has_sym(seq):
 
 
 def array(obj, dtype=None, **kw):
+    dtype = _ndt(dtype)
     if isinstance(obj, GA):
         raise Unsupported("np.array of a guarded selection")
     if isinstance(obj, (SV, SB)):
@@ -557,6 +587,7 @@ def argsort(a, *r, **k):
 
 
 def fromiter(it, dtype=None, count=-1, **k):
+    dtype = _ndt(dtype)
     from .guarded import GList
     if isinstance(it, GList):
         if _isfloat_dt(dtype):
@@ -836,15 +867,14 @@ absolute = abs
 def place(arr, mask, vals):
     """np.place; vals=None/NaN is poison (a fresh unconstrained real)."""
     CTX.tick()
-    if guard_now().c is None:
-        raise Unsupported("np.place inside a guard context")
+    gnow = guard_now()
     if not (vals is None or (isinstance(vals, float) and vals != vals)):
         raise Unsupported("np.place with values other than None/NaN")
     flat_mask = _np.asarray(mask).ravel()
     if arr.ndim != 1:
         raise Unsupported("np.place on a non 1-d array")
     for i, m in enumerate(flat_mask):
-        m = SB.lift(m)
+        m = SB.lift(m) & gnow          # inside a guard context the write happens only under the guard
         if m.c is False:
             continue
         _np.ndarray.__setitem__(arr, i, ite(m, fresh("nan"), _np.ndarray.__getitem__(arr, i)))
@@ -852,8 +882,9 @@ def place(arr, mask, vals):
 
 def copyto(dst, src, casting="same_kind", where=True):
     CTX.tick()
-    if guard_now().c is None:
-        raise Unsupported("np.copyto inside a guard context")
+    gnow = guard_now()
+    if gnow.c is None and not _is_obj(dst):
+        raise Unsupported("np.copyto into a native array inside a guard context")
     if not _is_obj(dst):
         if _is_obj(src) or _is_obj(where):
             raise Unsupported("symbolic copyto into a native array")
@@ -863,7 +894,7 @@ def copyto(dst, src, casting="same_kind", where=True):
     s = _np.broadcast_to(_obj(src), d.shape)
     w = _np.broadcast_to(_np.asarray(where) if isinstance(where, _np.ndarray) else _np.array(where), d.shape)
     for idx in _np.ndindex(*d.shape):
-        m = SB.lift(w[idx])
+        m = SB.lift(w[idx]) & gnow
         if m.c is False:
             continue
         d[idx] = ite(m, s[idx], d[idx])
